@@ -100,9 +100,12 @@ def _gen_case(rng, deep=False):
             if vec and all(v == 0 for v in vec) and m:
                 vec[0] = m
             st["x"].append(vec)
-        st["res"] = [_mag(rng, tols["tol_res"], rng.choice(["below", "below", "below", "at", "above"]))]
+        # the residual is a vector (in bidirectional mode the hydraulic and the thermal residual concatenated)
+        nres = rng.choice([1, 2, 3])
+        st["res"] = [_mag(rng, tols["tol_res"], rng.choice(["below", "below", "below", "at", "above"]))] + \
+            [_mag(rng, tols["tol_res"], "below") for _ in range(nres - 1)]
         if pattern == "all-good":
-            st["res"] = [_mag(rng, tols["tol_res"], "below")]
+            st["res"] = [_mag(rng, tols["tol_res"], "below") for _ in range(nres)]
         steps.append(st)
     # targeted corruptions: exactly one group out of tolerance / NaN / inf at some iteration
     if steps and pattern in ("converge-then-one-bad", "nan-once") or (steps and rng.random() < 0.3):
@@ -117,9 +120,10 @@ def _gen_case(rng, deep=False):
         elif what == "inf":
             steps[k]["x"][gi][0] = float("inf")
         elif what == "res-above":
-            steps[k]["res"] = [tols["tol_res"] * rng.choice([1.0000001, 3.0])]
+            steps[k]["res"][rng.randrange(len(steps[k]["res"]))] = tols["tol_res"] * rng.choice([1.0000001, 3.0])
         else:
-            steps[k]["res"] = [float("nan")]
+            # one entry of the residual vector is NaN (e.g. the thermal part), the others are fine
+            steps[k]["res"][rng.randrange(len(steps[k]["res"]))] = float("nan")
     return {"layout": layout, "method": method, "alpha0": alpha0, "max_iter": max_iter, "tols": tols,
             "sizes": sizes, "pattern": pattern, "steps": steps}
 
